@@ -68,8 +68,9 @@ c.havoc_on_raise = {"self.request_header": ('oneof', 'none',
                     ('obj', 'kmip.core.messages.messages.RequestHeader',
                      {'authentication': 'opaque',
                       'protocol_version': ('oneof', 'none', ('opaque_facts', 'half-decoded-version', ['partial']))}))}
+c.raised_repr_taint = ('wire',)       # repr() of a decode error may quote the bytes it choked on (UnicodeDecodeError.object)
 c.trust("decoder of the request message (covered by C01/ttlvsym); here: any bytes either raise or "
-        "yield a request with a header")
+        "yield a request with a header; the text of what it raises does not quote request data, its repr() may")
 
 LOOP_SESSION = ('obj_open', 'kmip.services.server.session.KmipSession',
                 {'_connection': ('model', 'Connection'), '_engine': ('model', 'Engine'),
